@@ -195,14 +195,25 @@ fn main() {
     for op in ops {
         match op[0] {
             "ts" => spawn(&mut threads),
-            "nc" => {
+            "nc" | "ncs" => {
                 let c: usize = op[1].parse().unwrap();
                 if c == 0 || created.contains(&c) { continue; }
                 created.insert(c);
                 let stat: Vec<u8> = (0..pool::NCS).map(|i| *op[2].as_bytes().get(i).unwrap_or(&b'n')).collect();
                 let dynv: Arc<Vec<AtomicBool>> = Arc::new((0..pool::NCS).map(|i| AtomicBool::new(op[3].as_bytes().get(i) == Some(&b'1'))).collect());
                 dyns.insert(c, dynv.clone());
-                let d = Dispatch::new(Rec { id: c, stat, dynv, hint: filter_of_rank(op[4]) });
+                // the collector as it is, type-erased in a Box, in an Arc (a function of its number and the history: what it is
+                // asked and handed must not depend on that), or — `ncs` — a `&'static` one (`Dispatch::from_static`)
+                let rec = Rec { id: c, stat, dynv, hint: filter_of_rank(op[4]) };
+                let d = if op[0] == "ncs" {
+                    Dispatch::from_static(Box::leak(Box::new(rec)))
+                } else {
+                    match (c + toks.len()) % 3 {
+                        1 => Dispatch::new(Box::new(rec) as Box<dyn tracing_core::Collect + Send + Sync>),
+                        2 => Dispatch::new(Arc::new(rec)),
+                        _ => Dispatch::new(rec),
+                    }
+                };
                 handles.insert(c, d);
             }
             "dh" => { let c: usize = op[1].parse().unwrap(); handles.remove(&c); }
